@@ -62,6 +62,7 @@ class Driver:
             self.lengths(srv, quick)
             self.arity(srv)
             self.invalid(srv)
+            self.lonely(srv)
             if self.hooks:
                 s = srv.snap()
                 if s["handler_aborts"]:
@@ -272,6 +273,44 @@ class Driver:
             got = o.read_available(0.0)
             if [m for m in got if not m.is_numeric]:
                 self.bad("framing:invalid-relayed:" + line.split()[0], "%r reached the observer: %s" % (line, got[0].raw))
+        a.close()
+        o.close()
+
+    # ---- a rejected line is answered by itself, not only once the next line arrives
+    def lonely(self, srv):
+        """"either executed or answered with the specific error": one rejected line, then silence; the error reply must
+        come without anything else being sent.  Deciding step: if nothing came during the silence and the reply then
+        arrives right after the next line (before that line's own answer), the server had been sitting on it"""
+        a, o = self.pair(srv, "l")
+        a.read_available(0.05)
+        cases = [("unknown-verb", "FROBNICATE now", "421"), ("missing-params", "KICK", "461"),
+                 ("invalid-parameter", "JOIN nochannelprefix", None), ("unknown-cap", "CAP FROB", None),
+                 ("missing-params-2", "PRIVMSG", "461"), ("unknown-mode", "MODE #l +Z", None)]
+        for name, line, code in cases:
+            a.send(line)
+            got = []
+            t0 = time.monotonic()
+            try:
+                got = a.read_until(lambda m: m.is_numeric or m.verb.startswith("ERROR"), 2.5)
+            except wire.Timeout as ex:
+                got = getattr(ex, "lines", [])
+            except wire.Closed:
+                self.bad("framing:lonely-closed", "connection closed after %r" % line)
+                return
+            self.case("lonely:" + name, line)
+            answered = any(m.is_numeric or m.verb.startswith("ERROR") for m in got)
+            if answered:
+                if code and not any(m.verb == code for m in got):
+                    self.bad("framing:lonely-wrong-reply", "%r answered with %s, expected %s" % (line, [m.raw for m in got][:2], code))
+                continue
+            # nothing during the silence: does it arrive with the next line?
+            later = a.ping("ln", 5.0)
+            late = [m for m in later if m.is_numeric or m.verb.startswith("ERROR")]
+            if late:
+                self.bad("framing:reply-withheld", "%r drew no reply during %.1f s of silence; the reply %r arrived only after "
+                         "the next line had been sent" % (line, time.monotonic() - t0, late[0].raw))
+            else:
+                self.bad("framing:no-error-reply", "%r was neither executed nor answered with an error" % line)
         a.close()
         o.close()
 
